@@ -74,8 +74,18 @@ CompareResult arithmeticCompare(
     const T1& lhs, const T2& rhs,
     enable_if_t<is_integral<T1>::value && is_integral<T2>::value &&
                 is_signed<T1>::value == is_signed<T2>::value &&
-                sizeof(T2) == sizeof(T1)>* = 0) {
+                sizeof(T2) == sizeof(T1) &&
+                (!is_same<T1, bool>::value || is_same<T2, bool>::value)>* =
+        0) {
   return arithmeticCompare<T1>(lhs, static_cast<T1>(rhs));
+}
+
+template <typename T1, typename T2>
+CompareResult arithmeticCompare(
+    const T1& lhs, const T2& rhs,
+    enable_if_t<is_same<T1, bool>::value && is_integral<T2>::value &&
+                !is_same<T2, bool>::value && sizeof(T2) == sizeof(T1)>* = 0) {
+  return arithmeticCompare<int>(static_cast<int>(lhs), static_cast<int>(rhs));
 }
 
 template <typename T1, typename T2>
@@ -83,7 +93,7 @@ CompareResult arithmeticCompare(
     const T1& lhs, const T2& rhs,
     enable_if_t<is_integral<T1>::value && is_integral<T2>::value &&
                 is_unsigned<T1>::value && is_signed<T2>::value &&
-                sizeof(T2) == sizeof(T1)>* = 0) {
+                sizeof(T2) == sizeof(T1) && !is_same<T1, bool>::value>* = 0) {
   if (rhs < 0)
     return COMPARE_RESULT_GREATER;
   return arithmeticCompare<T1>(lhs, static_cast<T1>(rhs));
